@@ -76,6 +76,16 @@ static void do_mt(char *line)
 static double vnow = 0;
 static double hook_seconds(void) { return vnow; }
 
+/* objective that reads back the limits in force during nlopt_optimize_limited (first call) */
+static int lim_seen_me; static double lim_seen_mt;
+static double lim_obj(unsigned n, const double *x, double *g, void *d)
+{
+    nlopt_opt o = (nlopt_opt) d;
+    (void) n; (void) g;
+    if (lim_seen_me == -12345) { lim_seen_me = nlopt_get_maxeval(o); lim_seen_mt = nlopt_get_maxtime(o); }
+    return x[0] * x[0];
+}
+
 static void do_stop(char *line)
 {
     char *tok[16]; int nt = 0; char *save = NULL, *t;
@@ -115,7 +125,17 @@ static void do_stop(char *line)
     } else if (!strcmp(tok[0], "limited") && nt >= 5) {
         /* limited save_maxeval maxeval save_maxtime maxtime: what nlopt_optimize_limited puts in force.
            Observed through an object whose objective reads the limits back. */
-        printf("skip\n");
+        nlopt_opt o = nlopt_create(NLOPT_LN_NELDERMEAD, 1);
+        double x = 0.25, mf = 0;
+        lim_seen_me = -12345; lim_seen_mt = -12345.0;
+        nlopt_set_min_objective(o, lim_obj, o);
+        nlopt_set_maxeval(o, atoi(tok[1]));
+        nlopt_set_maxtime(o, parsehex(tok[3]));
+        nlopt_set_xtol_rel(o, 0.5);
+        nlopt_optimize_limited(o, &x, &mf, atoi(tok[2]), parsehex(tok[4]));
+        printf("%d ", lim_seen_me); phex(stdout, lim_seen_mt);
+        printf(" %d ", nlopt_get_maxeval(o)); phex(stdout, nlopt_get_maxtime(o)); printf("\n");
+        nlopt_destroy(o);
     } else printf("bad-op\n");
     free(xa); free(xw); free(a); free(b);
 }
